@@ -89,7 +89,12 @@ impl Tokens {
     pub(crate) fn parse_literal(self) -> Result<UntypedExpr, Vec<ParseError>> {
         let mut parser = Parser::new(self.0);
         if let Some(token) = parser.tokens.next() {
-            parser.parse_literal(token, true).map_err(|_| parser.errors)
+            let literal = parser.parse_literal(token, true);
+            if let (Ok(_), Some(Token(_, meta))) = (&literal, parser.tokens.peek()) {
+                // the whole input must be a single literal
+                return Err(vec![ParseError(ParseErrorEnum::InvalidLiteral, *meta)]);
+            }
+            literal.map_err(|_| parser.errors)
         } else {
             let e = ParseErrorEnum::InvalidLiteral;
             let meta = MetaInfo {
